@@ -757,6 +757,25 @@ func checkR01_4(w *World, r *Report) {
 			}
 		}
 	}
+	// functions returning the result of an acquire function acquire too (GetBuffer → pool.Get)
+	for changed := true; changed; {
+		changed = false
+		for _, fn := range w.pkgFuncs() {
+			if acquire[fn] != "" {
+				continue
+			}
+			instrsOf(fn, func(in ssa.Instruction) {
+				c, ok := in.(*ssa.Call)
+				if !ok || acquire[fn] != "" {
+					return
+				}
+				if f := c.Call.StaticCallee(); f != nil && acquire[f] != "" && flowsToReturn(c) {
+					acquire[fn] = acquire[f]
+					changed = true
+				}
+			})
+		}
+	}
 	// releasers: Put a value derived from a parameter
 	releaser := map[*ssa.Function]int{}
 	for _, p := range pools {
